@@ -77,5 +77,7 @@ func (Keeper).ApplyVestingSchedule
             && Ended(time_unix(acc.StartTime), acc.VestingPeriods, len(acc.VestingPeriods), u)
                == cadd(old(Ended(time_unix(acc.StartTime), acc.VestingPeriods, len(acc.VestingPeriods), u)), Ended(s, vestingPeriods, len(vestingPeriods), u))
     ensures merged_total: result.3 == nil && result.2 ==> acc.OriginalVesting == cadd(old(acc.OriginalVesting), coins) && ValidCVA(*acc)
+    // the switch's default branch is dead code: the four cases are exhaustive
+    unreachable return2
     allow frame
 @*/
